@@ -1011,6 +1011,32 @@ func (g *PG) threadForm(sc *scope, ty Ty, depth int) Val {
 }
 
 // TopForm generates one top-level form: a definition or an expression.
+// closureLoop builds a tail-recursive loop that creates one closure over its
+// parameters per turn, lets them escape, and calls them after the loop.
+func (g *PG) closureLoop() []Val {
+	g.stat("closures-escape-tail-loop")
+	name := g.Prefix + "collect"
+	n := int64(g.n(2, 5, "turns"))
+	var closure Val
+	switch g.n(0, 2, "closure-kind") {
+	case 0:
+		closure = L(S("lambda"), L(), S("i"))
+	case 1:
+		closure = L(S("lambda"), L(), L(S("set!"), S("i"), L(S("+"), S("i"), I(100))), S("i"))
+	default:
+		closure = L(S("let"), L(L(S("j"), L(S("*"), S("i"), I(2)))), L(S("lambda"), L(S("&optional"), S("d")), L(S("list"), S("i"), S("j"), S("d"))))
+	}
+	recur := L(S(name), L(S("+"), S("i"), I(1)), L(S("cons"), closure, S("acc")))
+	if g.pct(30, "via-funcall") {
+		recur = L(S("funcall"), S(name), L(S("+"), S("i"), I(1)), L(S("cons"), closure, S("acc")))
+	}
+	def := L(S("defun"), S(name), L(S("i"), S("acc")), L(S("if"), L(S(">="), S("i"), I(n)), S("acc"), recur))
+	use := L(S("let"), L(L(S("fs"), L(S(name), I(0), L()))),
+		g.probe(L(S("map"), QS("list"), L(S("lambda"), L(S("f")), L(S("funcall"), S("f"))), S("fs"))),
+		g.probe(L(S("map"), QS("list"), L(S("lambda"), L(S("f")), L(S("funcall"), S("f"))), S("fs"))))
+	return []Val{def, use}
+}
+
 func (g *PG) TopForm(depth int) Val {
 	switch g.n(0, 9, "top") {
 	case 0, 1, 2:
@@ -1080,6 +1106,10 @@ func GenProgramWith(o ProgOpts) *rapid.Generator[Program] {
 		n := rapid.IntRange(1, o.MaxForms).Draw(t, "nforms")
 		var forms []Val
 		for i := 0; i < n; i++ {
+			if g.pct(6, "closure-loop") {
+				forms = append(forms, g.closureLoop()...)
+				continue
+			}
 			forms = append(forms, g.TopForm(o.Depth))
 		}
 		return Program{Forms: forms, Stats: g.Stats}
@@ -1093,6 +1123,10 @@ func genProgram(maxForms, budget, depth int, extra bool) *rapid.Generator[Progra
 		n := rapid.IntRange(1, maxForms).Draw(t, "nforms")
 		var forms []Val
 		for i := 0; i < n; i++ {
+			if g.pct(6, "closure-loop") {
+				forms = append(forms, g.closureLoop()...)
+				continue
+			}
 			forms = append(forms, g.TopForm(depth))
 		}
 		return Program{Forms: forms, Stats: g.Stats}
